@@ -96,13 +96,53 @@ CLAIMED = {
         design='DESIGN.md 4/C15'),
     'C16': dict(
         category='other',
-        text=('INTEGER/LONG part only: for all 2^16 / 2^32 values the real '
+        text=('INTEGER/LONG part only. For all 2^16 / 2^32 values: the real '
               'format_number gives sign-or-blank + decimal digits '
-              '(checked by an independent digit fold); SINGLE/DOUBLE are '
-              'outside the claim (no SMT theory of shortest-repr float '
-              'rendering).'),
-        note='Trusted: CrossHair model of str(int); floats excluded.',
+              '(independent digit fold for all INTEGER and LONG up to 5 '
+              'digits; against str(n) for all LONG), PRINT and STR$ agree, '
+              'n and -n show the same digits. From the text side, for every '
+              'well-formed text [ -]digits the real READ and INPUT code '
+              'returns the denoted value or rejects it iff out of range, '
+              'and formatting gives the text back. VAL on a boundary table. '
+              'SINGLE/DOUBLE are outside the claim (no SMT theory of '
+              'shortest-repr float rendering).'),
+        note='Trusted: CrossHair model of str(int) and the int(str)/'
+             'float(str) models of vlib/chfix.py; floats excluded.',
         design='DESIGN.md 4/C16'),
+    'C17': dict(
+        category='other',
+        text=('The real TerminalDevice._exec_print is driven with the '
+              'operand stack of the code generator\'s protocol for every '
+              'item/separator sequence up to length 3 (sampled in quick) / '
+              '4, item values symbolic (all INTEGER/LONG values, strings up '
+              'to a bound incl. longer than a zone), against a reference '
+              'layout written from the property statement.'),
+        note='Float items are not symbolic; number digits are C16\'s '
+             'subject.',
+        design='DESIGN.md 4/C17'),
+    'C18': dict(
+        category='other',
+        text=('The real TerminalDevice._exec_input runs on a bare CPU with '
+              'a SYMBOLIC response line (then a good one): for every line '
+              'over the alphabet, prompts, "? ", "Redo from start", the '
+              'acceptance decision, pushed values / cell types and that '
+              'nothing is left on the operand stack match a reference from '
+              'the property statement; plus INPUT programs followed by '
+              'GOSUB/RETURN/SUB in the C01 catalogue.'),
+        note='Alphabet {1 , - . blank x}; exponent forms and float values '
+             'are not symbolic.',
+        design='DESIGN.md 4/C18'),
+    'C19': dict(
+        category='other',
+        text=('Family A: for EVERY format string over the alphabet up to '
+              'length 4 (quick) / 6 the real PrintUsingFormatter is total, '
+              'copies literals/escapes and prints & and ! fields as '
+              'prescribed. Family B: one numeric field with symbolic '
+              'structure between literal text, values from a boundary '
+              'catalogue, equals a reference rendering.'),
+        note='Values are sampled (digits come from C code); rounding ties '
+             'excluded.',
+        design='DESIGN.md 4/C19'),
 }
 
 NOT_APPLICABLE = {
